@@ -652,6 +652,9 @@ int KSI_SignatureBuilder_createSignatureWithAggregationChain(KSI_SignatureBuilde
 		goto cleanup;
 	}
 
+	/* The aggregation chain starts at the level configured for this builder. */
+	tmpBuilder->aggrStartLevel = builder->aggrStartLevel;
+
 	res = KSI_SignatureBuilder_appendAggregationChain(tmpBuilder, aggr);
 	if (res != KSI_OK) {
 		KSI_pushError(ctx, res, NULL);
